@@ -169,5 +169,14 @@ def run(ctx):
         "numpy/awkward conversions == object backend (fields, flavor, values bit for bit)": {"ok": not any(f["site"].startswith(("numpy", "awkward")) for f in ctx.failures)}}
 
 
+_run_without_compiled = run
+
+
+def run(ctx):
+    _run_without_compiled(ctx)
+    from tools import nbrows
+    nbrows.check(ctx, ['to_xy', 'to_xyz', 'to_xyzt', 'to_xyztau', 'to_xytheta', 'to_xythetat', 'to_xythetatau', 'to_xyeta', 'to_xyetat', 'to_xyetatau', 'to_rhophi', 'to_rhophiz', 'to_rhophizt', 'to_rhophiztau', 'to_rhophitheta', 'to_rhophithetat', 'to_rhophithetatau', 'to_rhophieta', 'to_rhophietat', 'to_rhophietatau', 'to_Vector2D', 'to_Vector3D', 'to_Vector4D'], 'the conversions')
+
+
 def replay(rec):
     return {"site": (rec.get("failure") or {}).get("site"), "what": (rec.get("failure") or {}).get("what"), "still_fails": None}
